@@ -42,6 +42,7 @@ struct Builder {
     in_loop: bool,
     in_macro: bool,
     blocks: usize,
+    n_probe: usize,
 }
 
 impl Builder {
@@ -61,7 +62,25 @@ impl Builder {
     fn body(&mut self, nodes: &[Node]) -> Vec<Stmt> {
         let mut out = vec![];
         for n in nodes {
+            // escape-state probes around every nested scoped construct: what `"<"` renders as
+            // right before it and right after it (on the paths that reach both) must agree
+            let scoped = !matches!(n, Node::Mark | Node::Assign | Node::Break | Node::Continue | Node::Include);
+            let pid = if scoped {
+                self.n_probe += 1;
+                let pid = self.n_probe;
+                out.push(Stmt::Text(format!("\u{27e6}p{pid}:")));
+                out.push(Stmt::Emit(Expr::str("<")));
+                out.push(Stmt::Text("\u{27e7}".into()));
+                Some(pid)
+            } else {
+                None
+            };
             self.node(n, &mut out);
+            if let Some(pid) = pid {
+                out.push(Stmt::Text(format!("\u{27e6}r{pid}:")));
+                out.push(Stmt::Emit(Expr::str("<")));
+                out.push(Stmt::Text("\u{27e7}".into()));
+            }
         }
         out
     }
@@ -246,6 +265,7 @@ pub fn build(c: &ScopeCase) -> (String, usize, usize, Vec<(usize, bool)>) {
         in_loop: false,
         in_macro: false,
         blocks: 0,
+        n_probe: 0,
     };
     let mut top: Vec<Stmt> = vec![Stmt::Macro {
         name: "callhelper".into(),
@@ -441,6 +461,32 @@ impl Part for Scopes {
                 }
                 pos = end;
             }
+            // inner escape probes: pre/post of the same construct must render alike
+            {
+                let lowered = out.to_lowercase();
+                let mut pre: std::collections::HashMap<String, String> = Default::default();
+                let mut rest = lowered.as_str();
+                while let Some(at) = rest.find('\u{27e6}') {
+                    let after = &rest[at + '\u{27e6}'.len_utf8()..];
+                    let Some(end) = after.find('\u{27e7}') else { break };
+                    let token = &after[..end];
+                    rest = &after[end..];
+                    let Some((key, val)) = token.split_once(':') else { continue };
+                    if let Some(id) = key.strip_prefix('p') {
+                        pre.insert(id.to_string(), val.to_string());
+                    } else if let Some(id) = key.strip_prefix('r') {
+                        if let Some(before) = pre.remove(id) {
+                            if before != val {
+                                v.set_fail(
+                                    "escape_mode_not_restored",
+                                    format!("around nested construct #{id} the string \"<\" renders as {before:?} before and {val:?} after it\noutput {out:?}\npath {desc}\nsource: {source}"),
+                                );
+                                return v;
+                            }
+                        }
+                    }
+                }
+            }
             if out.matches('\u{ab}').count() != sentinels.len() {
                 v.set_fail("sentinel_duplicated", format!("output {out:?} has more sentinels than top-level constructs\nsource: {source}"));
                 return v;
@@ -457,7 +503,7 @@ impl Part for Scopes {
 crate::declare_parts!(Scopes);
 
 pub fn run(ctx: &mut Ctx) {
-    ctx.rule = "skeletons of nested scoped constructs (for with/without else, loop filter, recursive; with; set-block; filter block; autoescape on/off; if/else; macro + call; call block; scoped block; include of a template with its own break/continue) up to depth 3 (thorough 4), with `break`/`continue` (each guarded by its own boolean) at every position the parser accepts; every if condition is its own context boolean and every loop iterates its own context list, and ALL assignments (2^k booleans x list lengths 0/1/2) are rendered when there are at most 160, else 160 sampled ones; in .txt and .html templates. Oracles per path: the verif_hooks balance monitor reports nothing (frame depth, capture depth, auto-escape stack, operand stack equal at entry and normal exit of every instruction-stream evaluation; no pop of a foreign frame/capture), a marker written after every top-level construct reaches the output in order, `{{ \"<\" }}` after it renders in the template's initial escape mode, a variable assigned inside an isolating construct (for, with, macro, call, block) is undefined after it, a variable assigned before keeps its value; no panic. Non-trivial: a break/continue separated from its loop by another scoped construct. Distinct by case.".into();
+    ctx.rule = "skeletons of nested scoped constructs (for with/without else, loop filter, recursive; with; set-block; filter block; autoescape on/off; if/else; macro + call; call block; scoped block; include of a template with its own break/continue) up to depth 3 (thorough 4), with `break`/`continue` (each guarded by its own boolean) at every position the parser accepts; every if condition is its own context boolean and every loop iterates its own context list, and ALL assignments (2^k booleans x list lengths 0/1/2) are rendered when there are at most 160, else 160 sampled ones; in .txt and .html templates. Oracles per path: the verif_hooks balance monitor reports nothing (frame depth, capture depth, auto-escape stack, operand stack equal at entry and normal exit of every instruction-stream evaluation; no pop of a foreign frame/capture), a marker written after every top-level construct reaches the output in order, `{{ \"<\" }}` after it renders in the template's initial escape mode and `{{ \"<\" }}` printed right before and right after every nested scoped construct renders alike, a variable assigned inside an isolating construct (for, with, macro, call, block) is undefined after it, a variable assigned before keeps its value; no panic. Non-trivial: a break/continue separated from its loop by another scoped construct. Distinct by case.".into();
     ctx.assumptions = vec!["paths beyond the cap of 160 per program are sampled (labelled paths_sampled)".into()];
     preamble(ctx);
     let t = ctx.tier;
